@@ -16,6 +16,7 @@ VERIF_DIR = __import__("os").path.dirname(__import__("os").path.dirname(__import
 
 PROPS = {
     "C03": {
+        "model_mm_filter": "result-kinds",   # hash / distance VALUES are C01's / C02's business (DESIGN §14)
         "modules": [T + "C03"],
         "theorems": [(T + "C03.chunking", T + "C03"),
                      (T + "C03.chunking_generator", T + "C03"),
@@ -43,6 +44,7 @@ PROPS = {
         ],
     },
     "C11": {
+        "model_mm_filter": "result-kinds",   # hash / distance VALUES are C01's / C02's business (DESIGN §14)
         "modules": [T + "C11", T + "TablesLimits"],
         "theorems": [(T + "C11.processed_len_spec", T + "C11"),
                      (T + "C11.counters_bounded", T + "C11"),
@@ -69,6 +71,7 @@ PROPS = {
         ],
     },
     "C01": {
+        "extract_keys": [''],
         "modules": [T + "C01"],
         "theorems": [(T + "C01.tables", T + "C01"),
                      (T + "C01.params_eq", T + "C01"),
@@ -104,6 +107,10 @@ PROPS = {
         ],
     },
     "C10": {
+        # the gate structure (which option settings give Ok, which error otherwise) is what C10's theorems need
+        # from the correspondence; the hash *values* are C01's business and monotonicity of the value is
+        # judged on the real code by the probe's direct oracle
+        "model_mm_filter": "result-kinds",
         "modules": [T + "C10"],
         "theorems": [(T + "C10.length_error_iff", T + "C10"),
                      (T + "C10.finalize_mono", T + "C10"),
@@ -203,6 +210,7 @@ PROPS = {
         "assumptions": ["hex_simd::decode by contract"],
     },
     "C06": {
+        "extract_keys": ['size formulas', 'checksum sizes', 'quartile accessor', 'variants', 'hash prefix', 'HEX_', 'LEN_IN_STR'],
         "modules": [T + "C06", T + "C04"],
         "theorems": [(T + "C06.tryFrom_bytes", T + "C06"),
                      (T + "C06.tryFrom_store", T + "C06"),
@@ -227,6 +235,7 @@ PROPS = {
                         "256 Q-ratio bytes by the acc stream"],
     },
     "C14": {
+        "extract_keys": ['HEX_UPPER', 'size formulas', 'LEN_IN_STR', 'hash prefix', 'checksum sizes', 'variants'],
         "modules": [T + "C14", T + "C04"],
         "theorems": [(T + "C14.store_into_bytes_spec", T + "C14"),
                      (T + "C14.store_into_str_bytes_spec", T + "C14"),
@@ -285,6 +294,7 @@ PROPS = {
                         "pointer loads in the x86 back ends are modelled as list reads at the same offsets"],
     },
     "C08": {
+        "extract_keys": ['kernel pseudo', 'kernel sse', 'kernel avx2Packed', 'kernel avx2Distance', 'dist_', 'ring moduli', 'distance scaling', 'compare_with_config'],
         "modules": [T + "C08", T + "C02"],
         "theorems": [(T + "C08.dist_self", T + "C08"),
                      (T + "C08.dist_comm", T + "C08"),
@@ -315,6 +325,8 @@ PROPS = {
                         "evaluates every law directly on the compiled code for each generated pair (ORACLE lines)"],
     },
     "C13": {
+        "extract_keys": ['HEX_', 'decode_digit', 'hash prefix', 'LEN_IN_STR', 'compare_with_config', 'dist_', 'ring moduli', 'distance scaling'],
+        "model_mm_filter": "result-kinds",   # hash / distance VALUES are C01's / C02's business (DESIGN §14)
         "modules": [T + "C13"],
         "theorems": [(T + "C13.compare_with_match", T + "C13"),
                      (T + "C13.compare_with_spec", T + "C13"),
@@ -336,6 +348,7 @@ PROPS = {
                         "&str arguments: only valid UTF-8 strings are generated"],
     },
     "C12": {
+        "model_mm_filter": "result-kinds",   # hash / distance VALUES are C01's / C02's business (DESIGN §14)
         "modules": [T + "C12", T + "C01"],
         "theorems": [(T + "C12.stream_eq_spec", T + "C12"),
                      (T + "C12.hard_error_wins", T + "C12"),
@@ -363,6 +376,7 @@ PROPS = {
         ],
     },
     "C15": {
+        "model_mm_filter": "result-kinds",   # hash / distance VALUES are C01's / C02's business (DESIGN §14)
         "modules": [T + "C15"],
         "theorems": [(T + "C15.strict_eq_lenient_then_checks_text", T + "C15"),
                      (T + "C15.strict_eq_lenient_then_checks_bytes", T + "C15"),
@@ -396,6 +410,7 @@ PROPS = {
                         "strict-parser (+ serde)"],
     },
     "C16": {
+        "model_mm_filter": "result-kinds",   # hash / distance VALUES are C01's / C02's business (DESIGN §14)
         "modules": [T + "C16"],
         "theorems": [(T + "C16.ser_spec", T + "C16"),
                      (T + "C16.de_ser", T + "C16"),
